@@ -75,8 +75,20 @@ def judge(ctx, sheets, nontrivial, samples, label):
             samples.append(dict(kind=label, first_sheet=list(rep["sheets"].values())[-1]))
         return
     key = "clause-%d" % diag
-    if diag == 1 and dup_given_node_ids(sheets):
-        key = "duplicate-given-node-id"
+    if diag == 1:
+        # which node identifiers are repeated?  The listed finding is about a GIVEN `_nodeId` ending up on
+        # two nodes (written on two rows, or on a row of a template that is instantiated twice); a repeated
+        # INVENTED identifier is a different defect and is never covered by it
+        node_ids_given = {str(r.get("_nodeId", "")) for _, (_, rws) in sheets.items() for r in rws} - {""}
+        rep_ids = set()
+        for f in doc["flows"]:
+            seen = set()
+            for nd in f["nodes"]:
+                if nd["uuid"] in seen:
+                    rep_ids.add(nd["uuid"])
+                seen.add(nd["uuid"])
+        if rep_ids and rep_ids <= node_ids_given:
+            key = "duplicate-given-node-id"
     v.failing_input(key, "compiled document is not closed: " + CLAUSES.get(diag, str(diag)), rep)
 
 
@@ -137,6 +149,24 @@ def run(ctx):
             label = "sugared"
         if not rows:
             continue
+        extra_sheets, extra_index_pre = None, None
+        if rng.random() < 0.18:
+            # inserted blocks: ONE template inserted several times (same or different data row) in one
+            # flow and in a second flow, each insertion the last row on its path
+            label += "+insert"
+            brows, _ = sheetgen.gen_core_sheet(rng, rng.choice([1, 2, 3, 4]), wf=True, special_text=False)
+            if brows:
+                for br in brows:
+                    if br["type"] == "send_message" and isinstance(br.get("arg"), str):
+                        br["arg"] = br["arg"] + " {{w}}"
+                bh, bc = sheetgen.render_sheet(brows, rng)
+                extra_sheets = {"blk": (bh, bc), "bdata": (["ID", "w"], [dict(ID="d1", w="one"), dict(ID="d2", w="two")])}
+                extra_index_pre = [dict(type="data_sheet", sheet_name="bdata"), dict(type="template_definition", sheet_name="blk")]
+                srcs = [r["row_id"] for r in rows if r["type"] in sheetgen.NODE_TYPES and r.get("row_id")]
+                for k in range(rng.choice([2, 2, 3])):
+                    frm = rng.choice(srcs) if srcs and rng.random() < 0.8 else ""
+                    rows.append({"type": "insert_as_block", "row_id": f"ib{k}", "edges": [sheetgen.edge(frm=frm)], "arg": "blk",
+                                 "data_sheet": "bdata", "data_row_id": rng.choice(["d1", "d1", "d2"])})
         if rng.random() < 0.06:
             # the same given node id on two rows that cannot be merged (two different nodes)
             cand = [r for r in rows if r["type"] in sheetgen.NODE_TYPES]
@@ -146,7 +176,18 @@ def run(ctx):
                 label += "+dup_node_id"
         headers, cells = sheetgen.render_sheet(rows, rng)
         ctx.count("kind_" + label)
-        if rng.random() < 0.5:
+        if extra_sheets is not None:
+            sheets = flowutil.single_flow_workbook("f1", headers, cells, extra_sheets=extra_sheets)
+            sheets["content_index"] = (sheets["content_index"][0], extra_index_pre + sheets["content_index"][1])
+            if rng.random() < 0.5:
+                # the same block, same data row, closes a second flow too
+                h2, c2 = sheetgen.render_sheet(
+                    [{"type": "send_message", "row_id": "s1", "edges": [sheetgen.edge(frm="start")], "arg": "second flow"},
+                     {"type": "insert_as_block", "row_id": "ib", "edges": [sheetgen.edge(frm="s1")], "arg": "blk",
+                      "data_sheet": "bdata", "data_row_id": "d1"}], rng)
+                sheets["f2"] = (h2, c2)
+                sheets["content_index"][1].append(dict(type="create_flow", sheet_name="f2"))
+        elif rng.random() < 0.5:
             sheets = flowutil.template_workbook("f1", headers, cells, CTX)
         else:
             sheets = flowutil.single_flow_workbook("f1", headers, cells)
